@@ -8,6 +8,8 @@ mod config;
 mod region;
 
 pub use config::{CancelToken, ThreadPool};
+#[cfg(fidget_verif)]
+pub use config::verif_sched;
 pub use region::{ImageSize, RegionSize, VoxelSize};
 
 /// A `RenderHandle` contains lazily-populated tapes for rendering
